@@ -134,17 +134,13 @@ func UpdatePathAttrs4ByteAs(logger *slog.Logger, msg *bgp.BGPUpdate) {
 		return
 	}
 
+	// RFC 6793 4.2.3: the AS numbers of AS_PATH and AS4_PATH are counted as for
+	// route selection (RFC 4271 9.1.2.2, RFC 5065), i.e. confederation segments
+	// are not counted (ASLen() is 0 for them).
 	asLen := 0
-	asConfedLen := 0
 	asParams := make([]bgp.AsPathParamInterface, 0, len(asAttr.Value))
 	for _, param := range asAttr.Value {
 		asLen += param.ASLen()
-		switch param.GetType() {
-		case bgp.BGP_ASPATH_ATTR_TYPE_CONFED_SET:
-			asConfedLen++
-		case bgp.BGP_ASPATH_ATTR_TYPE_CONFED_SEQ:
-			asConfedLen += len(param.GetAS())
-		}
 		asParams = append(asParams, param)
 	}
 
@@ -177,16 +173,25 @@ func UpdatePathAttrs4ByteAs(logger *slog.Logger, msg *bgp.BGPUpdate) {
 		}
 	}
 
-	if asLen+asConfedLen < as4Len {
+	if asLen < as4Len {
 		logger.Warn("AS4_PATH is longer than AS_PATH. ignore AS4_PATH",
 			slog.String("Topic", "Table"))
 		return
 	}
 
-	keepNum := asLen + asConfedLen - as4Len
+	keepNum := asLen - as4Len
 
 	newParams := make([]bgp.AsPathParamInterface, 0, len(asAttr.Value))
 	for _, param := range asParams {
+		// RFC 6793 4.2.3: a confederation segment SHALL be prepended if it is
+		// either the leading path segment or is adjacent to a path segment that
+		// is prepended. It does not use up any of the AS numbers to keep.
+		switch param.GetType() {
+		case bgp.BGP_ASPATH_ATTR_TYPE_CONFED_SEQ, bgp.BGP_ASPATH_ATTR_TYPE_CONFED_SET:
+			newParams = append(newParams, param)
+			continue
+		}
+
 		// nothing (more) to take from AS_PATH: taking a zero-length cut of
 		// the next segment would leave an empty segment in the result
 		if keepNum <= 0 {
